@@ -1,10 +1,799 @@
 /-
-  Model module `Json` (driver op `json`). Import-free apart from RsjModel.* modules.
+  Model of JSON manifestation and JSON parsing of rsjsonnet:
+
+  * `rsjsonnet-lang/src/program/eval/manifest.rs`
+      `escape_string_json`, `ManifestJsonFormat`, `do_manifest_json`,
+      `do_manifest_python`, `do_manifest_yaml_doc`, `is_safe_yaml_plain`,
+      `is_safe_toml_plain`, `escape_key_toml`
+  * `rsjsonnet-lang/src/program/eval/parse_json.rs` (`parse_json`, `Lexer`)
+  * `ObjectData::get_visible_fields_order` (single-layer objects): `visibleSorted`
+
+  Strings are lists of code points (`Nat`); Rust `char`s are Unicode scalar
+  values, and nothing in this module needs that restriction.  Numbers are
+  their decimal TEXT token (`JVal.num tok`): the implementation prints with
+  `Display for f64` and parses with `str::parse::<f64>`; the only thing the JSON
+  parser asks of the double is `is_finite()`, modelled exactly by `overflows`
+  (correctly rounded parse is infinite iff |value| >= 2^1024 - 2^970).
+
+  Not modelled: the line/column carried by `ParseError` (only the kind is).
+  The evaluator's explicit state stack in `do_manifest_json` is modelled by
+  the equivalent structural recursion (`manifest`); the explicit stack of
+  `parse_json` is modelled literally (`Frame`, `unwind`, `run`), the outer
+  `loop` by fuel `input length + 1` (every iteration consumes a character).
 -/
 import RsjModel.Util
 namespace Rsj.Json
 
-/-- `json <args...>` : one canonical answer line, or `none` for a malformed request. -/
-def handle (_args : List String) : Option String := none
+/-- A string: list of code points. -/
+abbrev Str := List Nat
+
+/-- JSON-representable values.  `num` carries the number's text token,
+    `obj` the ordered field list. -/
+inductive JVal where
+  | null
+  | bool (b : Bool)
+  | num (tok : Str)
+  | str (s : Str)
+  | arr (items : List JVal)
+  | obj (fields : List (Str × JVal))
+deriving Repr, Inhabited
+
+/-! ## `escape_string_json` -/
+
+/-- lower-case hex digit, as `{:x}` prints it -/
+def hexLower (n : Nat) : Nat := if n < 10 then 48 + n else 87 + n
+
+/-- `{:04x}` for a value below 0x10000 -/
+def hex4 (c : Nat) : Str :=
+  [hexLower (c / 4096 % 16), hexLower (c / 256 % 16), hexLower (c / 16 % 16), hexLower (c % 16)]
+
+/-- One iteration of the `match chr` in `escape_string_json` (arms in source order). -/
+def escapeChar (c : Nat) : Str :=
+  if c = 8 then [92, 98]            -- \b
+  else if c = 9 then [92, 116]      -- \t
+  else if c = 10 then [92, 110]     -- \n
+  else if c = 12 then [92, 102]     -- \f
+  else if c = 13 then [92, 114]     -- \r
+  else if c = 34 then [92, 34]      -- \"
+  else if c = 92 then [92, 92]      -- \\
+  else if c ≤ 0x1f ∨ (0x7f ≤ c ∧ c ≤ 0x9f) then 92 :: 117 :: hex4 c   -- \u00xx
+  else [c]
+
+def escapeBody : Str → Str
+  | [] => []
+  | c :: s => escapeChar c ++ escapeBody s
+
+/-- `escape_string_json` (also `escape_string_python`, `escape_string_toml`). -/
+def escape (s : Str) : Str := 34 :: (escapeBody s ++ [34])
+
+/-! ## `ManifestJsonFormat` and `do_manifest_json` -/
+
+structure Fmt where
+  indent : Str
+  newline : Str
+  keyValSep : Str
+  itemSep : Str
+  emptyArray : Option Str
+  emptyObject : Option Str
+deriving Repr
+
+/-- `ManifestJsonFormat::default_to_string` -/
+def Fmt.toStringFmt : Fmt :=
+  { indent := [], newline := [], keyValSep := [58, 32], itemSep := [44, 32],
+    emptyArray := some [91, 32, 93], emptyObject := some [123, 32, 125] }
+
+/-- `ManifestJsonFormat::default_manifest` -/
+def Fmt.defaultManifest : Fmt :=
+  { indent := [32, 32, 32], newline := [10], keyValSep := [58, 32], itemSep := [44],
+    emptyArray := some [91, 32, 93], emptyObject := some [123, 32, 125] }
+
+/-- `ManifestJsonFormat::for_std_manifest_ex` -/
+def Fmt.ex (indent newline keyValSep : Str) : Fmt :=
+  { indent := indent, newline := newline, keyValSep := keyValSep, itemSep := [44],
+    emptyArray := none, emptyObject := none }
+
+/-- `std.manifestJsonMinified(v) = std.manifestJsonEx(v, "", "", ":")` (std.libsonnet) -/
+def Fmt.minified : Fmt := Fmt.ex [] [] [58]
+
+/-- `std.manifestJson(v) = std.manifestJsonEx(v, "    ")` with the defaults
+    `newline = "\n"`, `key_val_sep = ": "` (stdlib.rs) -/
+def Fmt.stdManifestJson : Fmt := Fmt.ex [32, 32, 32, 32] [10] [58, 32]
+
+/-- `indent.repeat(n)` / `for _ in 0..n { push_str(indent) }` -/
+def rep : Nat → Str → Str
+  | 0, _ => []
+  | n + 1, s => s ++ rep n s
+
+def sNull : Str := [110, 117, 108, 108]
+def sTrue : Str := [116, 114, 117, 101]
+def sFalse : Str := [102, 97, 108, 115, 101]
+
+mutual
+/-- `do_manifest_json` at `depth = d`.  (`if !indent.is_empty() { push
+    indent.repeat(d+1) }` equals pushing `rep (d+1) indent` unconditionally.) -/
+def manifest (f : Fmt) (d : Nat) : JVal → Str
+  | .null => sNull
+  | .bool true => sTrue
+  | .bool false => sFalse
+  | .num t => t
+  | .str s => escape s
+  | .arr [] =>
+    match f.emptyArray with
+    | some e => e
+    | none => 91 :: (f.newline ++ (f.newline ++ (rep d f.indent ++ [93])))
+  | .arr (x :: xs) =>
+    91 :: (f.newline ++ (manifestItems f d x xs ++ (f.newline ++ (rep d f.indent ++ [93]))))
+  | .obj [] =>
+    match f.emptyObject with
+    | some e => e
+    | none => 123 :: (f.newline ++ (f.newline ++ (rep d f.indent ++ [125])))
+  | .obj ((k, x) :: xs) =>
+    123 :: (f.newline ++ (manifestFields f d k x xs ++ (f.newline ++ (rep d f.indent ++ [125]))))
+/-- items of a non-empty array, separated by `item_sep ++ newline` -/
+def manifestItems (f : Fmt) (d : Nat) : JVal → List JVal → Str
+  | x, [] => rep (d + 1) f.indent ++ manifest f (d + 1) x
+  | x, y :: ys =>
+    rep (d + 1) f.indent ++ (manifest f (d + 1) x ++ (f.itemSep ++ (f.newline ++ manifestItems f d y ys)))
+/-- fields of a non-empty object -/
+def manifestFields (f : Fmt) (d : Nat) : Str → JVal → List (Str × JVal) → Str
+  | k, x, [] => rep (d + 1) f.indent ++ (escape k ++ (f.keyValSep ++ manifest f (d + 1) x))
+  | k, x, (k', y) :: ys =>
+    rep (d + 1) f.indent ++ (escape k ++ (f.keyValSep ++ (manifest f (d + 1) x ++
+      (f.itemSep ++ (f.newline ++ manifestFields f d k' y ys)))))
+end
+
+/-- `std.toString` / string coercion (`CoerceToString`): strings as they are,
+    everything else through `default_to_string`. -/
+def toStringVal : JVal → Str
+  | .str s => s
+  | v => manifest Fmt.toStringFmt 0 v
+
+/-! ## `get_visible_fields_order` for a single-layer object -/
+
+/-- `str::cmp` = lexicographic on UTF-8 bytes = lexicographic on code points -/
+def strLt : Str → Str → Bool
+  | [], [] => false
+  | [], _ :: _ => true
+  | _ :: _, [] => false
+  | a :: as, b :: bs => if a < b then true else if b < a then false else strLt as bs
+
+/-- `BTreeMap::insert` on the sorted association list (a later equal key replaces). -/
+def btInsert {α : Type} (k : Str) (v : α) : List (Str × α) → List (Str × α)
+  | [] => [(k, v)]
+  | (k', v') :: rest =>
+    if strLt k k' then (k, v) :: (k', v') :: rest
+    else if strLt k' k then (k', v') :: btInsert k v rest
+    else (k, v) :: rest
+
+def btOfList {α : Type} : List (Str × α) → List (Str × α) → List (Str × α)
+  | acc, [] => acc
+  | acc, (k, v) :: rest => btOfList (btInsert k v acc) rest
+
+/-- fields as `(name, hidden?, value)` in source order ↦ the list handed to the
+    manifester: sorted by name, hidden ones removed. -/
+def visibleSorted {α : Type} (fs : List (Str × Bool × α)) : List (Str × α) :=
+  (btOfList [] fs).filterMap (fun (k, h, v) => if h then none else some (k, v))
+
+/-! ## `parse_json.rs` -/
+
+inductive Err where
+  | expectedValue
+  | expectedEof
+  | expected1 (c : Nat)
+  | expected2 (c1 c2 : Nat)
+  | invalidNumber
+  | numberOverflow
+  | unfinishedString
+  | invalidChrInString
+  | invalidStringEscape
+  | expectedObjectKey
+  | repeatedFieldName (k : Str)
+  /-- model artefact: outer loop ran out of fuel (never happens, see proofs) -/
+  | fuel
+deriving Repr, DecidableEq
+
+def isWs (c : Nat) : Bool := c == 9 || c == 10 || c == 13 || c == 32
+
+/-- `Lexer::skip_spaces` -/
+def skipSpaces : Str → Str
+  | [] => []
+  | c :: r => if isWs c then skipSpaces r else c :: r
+
+def isDigit (c : Nat) : Bool := 48 ≤ c && c ≤ 57
+def isDigit19 (c : Nat) : Bool := 49 ≤ c && c ≤ 57
+
+/-- states of `lex_number` -/
+inductive NState where
+  | start | minus | zero | intPart | dot | fracPart | e | eSign | eDigits
+deriving Repr, DecidableEq
+
+inductive NAct where
+  | next (s : NState)   -- character eaten
+  | stop                -- `break`
+  | bad                 -- `InvalidNumber`
+deriving Repr, DecidableEq
+
+/-- one `match state` step on the next character (`none` = end of input) -/
+def numStep (st : NState) (c : Option Nat) : NAct :=
+  let is (p : Nat → Bool) : Bool := match c with | some x => p x | none => false
+  match st with
+  | .start =>
+    if is (· == 45) then .next .minus
+    else if is (· == 48) then .next .zero
+    else if is isDigit19 then .next .intPart
+    else .stop
+  | .minus =>
+    if is (· == 48) then .next .zero
+    else if is isDigit19 then .next .intPart
+    else .bad
+  | .zero =>
+    if is isDigit then .bad
+    else if is (· == 46) then .next .dot
+    else if is (fun x => x == 101 || x == 69) then .next .e
+    else .stop
+  | .intPart =>
+    if is isDigit then .next .intPart
+    else if is (· == 46) then .next .dot
+    else if is (fun x => x == 101 || x == 69) then .next .e
+    else .stop
+  | .dot => if is isDigit then .next .fracPart else .bad
+  | .fracPart =>
+    if is isDigit then .next .fracPart
+    else if is (fun x => x == 101 || x == 69) then .next .e
+    else .stop
+  | .e =>
+    if is (fun x => x == 45 || x == 43) then .next .eSign
+    else if is isDigit then .next .eDigits
+    else .bad
+  | .eSign => if is isDigit then .next .eDigits else .bad
+  | .eDigits => if is isDigit then .next .eDigits else .stop
+
+def consTok (c : Nat) : Except Err (Str × Str) → Except Err (Str × Str)
+  | .ok (t, r) => .ok (c :: t, r)
+  | .error e => .error e
+
+/-- the `loop` of `lex_number`: (eaten token, remaining input) -/
+def numScan : NState → Str → Except Err (Str × Str)
+  | st, [] =>
+    match numStep st none with
+    | .bad => .error .invalidNumber
+    | _ => .ok ([], [])
+  | st, c :: r =>
+    match numStep st (some c) with
+    | .next st' => consTok c (numScan st' r)
+    | .stop => .ok ([], c :: r)
+    | .bad => .error .invalidNumber
+
+/-! ### `number.parse::<f64>().is_finite()` on a token accepted by `numScan` -/
+
+def digitsVal : Str → Nat → Nat
+  | [], acc => acc
+  | c :: r, acc => digitsVal r (acc * 10 + (c - 48))
+
+def numDigits : Nat → Nat → Nat
+  | 0, _ => 0
+  | fuel + 1, n => if n = 0 then 0 else 1 + numDigits fuel (n / 10)
+
+/-- 2^1024 - 2^970: smallest magnitude that the correctly rounded
+    (ties-to-even) conversion maps to infinity. -/
+def overflowThreshold : Nat := 2 ^ 1024 - 2 ^ 970
+
+/-- split `-? int (. frac)? ([eE] [+-]? exp)?` -/
+def splitNumber (t : Str) : Str × Str × Bool × Str :=
+  let t := match t with | 45 :: r => r | _ => t
+  let ip := t.takeWhile isDigit
+  let r := t.dropWhile isDigit
+  let (fp, r) := match r with
+    | 46 :: r' => (r'.takeWhile isDigit, r'.dropWhile isDigit)
+    | _ => ([], r)
+  match r with
+  | _ :: 45 :: ex => (ip, fp, true, ex)
+  | _ :: 43 :: ex => (ip, fp, false, ex)
+  | _ :: ex => (ip, fp, false, ex)
+  | [] => (ip, fp, false, [])
+
+/-- does the token denote a magnitude that `str::parse::<f64>` turns into ±inf? -/
+def overflows (t : Str) : Bool :=
+  let (ip, fp, eneg, ex) := splitNumber t
+  let m := digitsVal (ip ++ fp) 0
+  if m = 0 then false
+  else
+    let nd : Int := numDigits (ip.length + fp.length + 1) m
+    let e : Int := if eneg then - (digitsVal ex 0 : Int) else (digitsVal ex 0 : Int)
+    let k : Int := e - fp.length
+    -- 10^(nd-1+k) ≤ value < 10^(nd+k); threshold ≈ 1.797e308
+    if nd + k > 310 then true
+    else if nd + k < 300 then false
+    else if k ≥ 0 then decide (m * 10 ^ k.toNat ≥ overflowThreshold)
+    else decide (m ≥ overflowThreshold * 10 ^ (-k).toNat)
+
+/-- `Lexer::lex_number`: `none` when no character was eaten. -/
+def lexNumber (s : Str) : Except Err (Option (Str × Str)) :=
+  match numScan .start s with
+  | .error e => .error e
+  | .ok ([], _) => .ok none
+  | .ok (c :: t, r) => if overflows (c :: t) then .error .numberOverflow else .ok (some (c :: t, r))
+
+/-- `hex_from_digit` -/
+def hexFromDigit (c : Nat) : Option Nat :=
+  if 48 ≤ c ∧ c ≤ 57 then some (c - 48)
+  else if 97 ≤ c ∧ c ≤ 102 then some (c - 97 + 10)
+  else if 65 ≤ c ∧ c ≤ 70 then some (c - 65 + 10)
+  else none
+
+/-- `eat_codeunit` on four available characters -/
+def cu4 (a b c d : Nat) : Option Nat :=
+  match hexFromDigit a, hexFromDigit b, hexFromDigit c, hexFromDigit d with
+  | some x, some y, some z, some w => some (x * 4096 + y * 256 + z * 16 + w)
+  | _, _, _, _ => none
+
+def consStr (c : Nat) : Except Err (Str × Str) → Except Err (Str × Str)
+  | .ok (s, r) => .ok (c :: s, r)
+  | .error e => .error e
+
+/-- body of `lex_string` after the opening quote: (decoded string, rest after
+    the closing quote) -/
+def lexStrBody : Str → Except Err (Str × Str)
+  | [] => .error .unfinishedString
+  | c :: r =>
+    if c = 34 then .ok ([], r)
+    else if c = 92 then
+      match r with
+      | [] => .error .unfinishedString
+      | x :: r1 =>
+        if x = 34 then consStr 34 (lexStrBody r1)
+        else if x = 92 then consStr 92 (lexStrBody r1)
+        else if x = 47 then consStr 47 (lexStrBody r1)
+        else if x = 98 then consStr 8 (lexStrBody r1)
+        else if x = 102 then consStr 12 (lexStrBody r1)
+        else if x = 110 then consStr 10 (lexStrBody r1)
+        else if x = 114 then consStr 13 (lexStrBody r1)
+        else if x = 116 then consStr 9 (lexStrBody r1)
+        else if x = 117 then
+          match r1 with
+          | h0 :: h1 :: h2 :: h3 :: r2 =>
+            match cu4 h0 h1 h2 h3 with
+            | none => .error .invalidStringEscape
+            | some cu1 =>
+              if 0xD800 ≤ cu1 ∧ cu1 ≤ 0xDFFF then
+                match r2 with
+                | 92 :: 117 :: r3 =>
+                  match r3 with
+                  | g0 :: g1 :: g2 :: g3 :: r4 =>
+                    match cu4 g0 g1 g2 g3 with
+                    | none => .error .invalidStringEscape
+                    | some cu2 =>
+                      -- `char::decode_utf16([cu1, cu2])`
+                      if cu1 ≤ 0xDBFF ∧ 0xDC00 ≤ cu2 ∧ cu2 ≤ 0xDFFF then
+                        consStr (0x10000 + (cu1 - 0xD800) * 0x400 + (cu2 - 0xDC00)) (lexStrBody r4)
+                      else .error .invalidStringEscape
+                  | _ => .error .invalidStringEscape
+                | _ => .error .invalidStringEscape   -- `char::from_u32(surrogate)` is `None`
+              else consStr cu1 (lexStrBody r2)
+          | _ => .error .invalidStringEscape
+        else .error .invalidStringEscape
+    else if c ≤ 0x1f then .error .invalidChrInString
+    else consStr c (lexStrBody r)
+
+/-- `Lexer::lex_string`: `none` when the input does not start with `"`. -/
+def lexString : Str → Except Err (Option (Str × Str))
+  | 34 :: r =>
+    match lexStrBody r with
+    | .ok p => .ok (some p)
+    | .error e => .error e
+  | _ => .ok none
+
+/-- `str::strip_prefix` -/
+def stripPrefix : Str → Str → Option Str
+  | [], s => some s
+  | _ :: _, [] => none
+  | p :: ps, c :: s => if p = c then stripPrefix ps s else none
+
+/-- `StackItem` -/
+inductive Frame where
+  | arr (items : List JVal)
+  | obj (fields : List (Str × JVal)) (key : Str)
+deriving Repr
+
+/-- what the first half of the outer loop body produces -/
+inductive Start where
+  | value (v : JVal) (rest : Str)     -- falls through to the inner loop
+  | push (f : Frame) (rest : Str)     -- `stack.push(..); continue`
+deriving Repr
+
+/-- `lex_string()?.ok_or(ExpectedObjectKey)`, `skip_spaces`, `eat_char(':')`,
+    `skip_spaces` -/
+def lexKeyColon (s : Str) : Except Err (Str × Str) :=
+  match lexString s with
+  | .error e => .error e
+  | .ok none => .error .expectedObjectKey
+  | .ok (some (k, r)) =>
+    match skipSpaces r with
+    | 58 :: r' => .ok (k, skipSpaces r')
+    | _ => .error (.expected1 58)
+
+/-- the `let mut value = if lexer.eat_str("null") ... else ...` chain -/
+def startValue (s : Str) : Except Err Start :=
+  match stripPrefix sNull s with
+  | some r => .ok (.value .null (skipSpaces r))
+  | none =>
+  match stripPrefix sFalse s with
+  | some r => .ok (.value (.bool false) (skipSpaces r))
+  | none =>
+  match stripPrefix sTrue s with
+  | some r => .ok (.value (.bool true) (skipSpaces r))
+  | none =>
+  match lexNumber s with
+  | .error e => .error e
+  | .ok (some (t, r)) => .ok (.value (.num t) (skipSpaces r))
+  | .ok none =>
+  match lexString s with
+  | .error e => .error e
+  | .ok (some (str, r)) => .ok (.value (.str str) (skipSpaces r))
+  | .ok none =>
+  match s with
+  | 91 :: r =>
+    match skipSpaces r with
+    | 93 :: r' => .ok (.value (.arr []) (skipSpaces r'))
+    | r' => .ok (.push (.arr []) r')
+  | 123 :: r =>
+    match skipSpaces r with
+    | 125 :: r' => .ok (.value (.obj []) (skipSpaces r'))
+    | r' =>
+      match lexKeyColon r' with
+      | .error e => .error e
+      | .ok (k, r'') => .ok (.push (.obj [] k) r'')
+  | _ => .error .expectedValue
+
+/-- `SimpleObjectBuilder::try_insert_field` fails on a repeated name -/
+def hasKey (k : Str) : List (Str × JVal) → Bool
+  | [] => false
+  | (k', _) :: rest => k' == k || hasKey k rest
+
+/-- result of the inner `loop`: finished, or `break` back to the outer loop -/
+inductive Unwound where
+  | done (v : JVal)
+  | more (stack : List Frame) (rest : Str)
+deriving Repr
+
+/-- the inner `loop { if let Some(stack_item) = stack.pop() ... }` -/
+def unwind (v : JVal) : List Frame → Str → Except Err Unwound
+  | [], rem => if rem.isEmpty then .ok (.done v) else .error .expectedEof
+  | .arr items :: st, rem =>
+    match rem with
+    | 93 :: r => unwind (.arr (items ++ [v])) st (skipSpaces r)
+    | 44 :: r => .ok (.more (.arr (items ++ [v]) :: st) (skipSpaces r))
+    | _ => .error (.expected2 93 44)
+  | .obj fields key :: st, rem =>
+    if hasKey key fields then .error (.repeatedFieldName key)
+    else
+      match rem with
+      | 125 :: r => unwind (.obj (fields ++ [(key, v)])) st (skipSpaces r)
+      | 44 :: r =>
+        match lexKeyColon (skipSpaces r) with
+        | .error e => .error e
+        | .ok (k, r') => .ok (.more (.obj (fields ++ [(key, v)]) k :: st) r')
+      | _ => .error (.expected2 125 44)
+
+/-- the outer `loop` -/
+def run : Nat → List Frame → Str → Except Err JVal
+  | 0, _, _ => .error .fuel
+  | n + 1, st, rem =>
+    match startValue rem with
+    | .error e => .error e
+    | .ok (.push f r) => run n (f :: st) r
+    | .ok (.value v r) =>
+      match unwind v st r with
+      | .error e => .error e
+      | .ok (.done v') => .ok v'
+      | .ok (.more st' r') => run n st' r'
+
+/-- `parse_json` -/
+def parseJson (s : Str) : Except Err JVal :=
+  run (s.length + 1) [] (skipSpaces s)
+
+/-! ## `do_manifest_python` -/
+
+def sNone : Str := [78, 111, 110, 101]
+def sPyTrue : Str := [84, 114, 117, 101]
+def sPyFalse : Str := [70, 97, 108, 115, 101]
+
+mutual
+def manifestPython : JVal → Str
+  | .null => sNone
+  | .bool true => sPyTrue
+  | .bool false => sPyFalse
+  | .num t => t
+  | .str s => escape s
+  | .arr [] => [91, 93]
+  | .arr (x :: xs) => 91 :: (pythonItems x xs ++ [93])
+  | .obj [] => [123, 125]
+  | .obj ((k, x) :: xs) => 123 :: (pythonFields k x xs ++ [125])
+def pythonItems : JVal → List JVal → Str
+  | x, [] => manifestPython x
+  | x, y :: ys => manifestPython x ++ (44 :: 32 :: pythonItems y ys)
+def pythonFields : Str → JVal → List (Str × JVal) → Str
+  | k, x, [] => escape k ++ (58 :: 32 :: manifestPython x)
+  | k, x, (k', y) :: ys => escape k ++ (58 :: 32 :: (manifestPython x ++ (44 :: 32 :: pythonFields k' y ys)))
+end
+
+/-! ## key quoting: `is_safe_yaml_plain`, `is_safe_toml_plain` -/
+
+def isAlnum (c : Nat) : Bool :=
+  (48 ≤ c && c ≤ 57) || (65 ≤ c && c ≤ 90) || (97 ≤ c && c ≤ 122)
+
+def toLowerAscii (c : Nat) : Nat := if 65 ≤ c ∧ c ≤ 90 then c + 32 else c
+
+/-- `str::eq_ignore_ascii_case` -/
+def eqIgnoreAsciiCase (a b : Str) : Bool := a.map toLowerAscii == b.map toLowerAscii
+
+def countC (p : Nat → Bool) (s : Str) : Nat := (s.filter p).length
+
+def startsWith (p s : Str) : Bool := (stripPrefix p s).isSome
+
+/-- the `special` table of `is_safe_yaml_plain` -/
+def yamlSpecial : List Str :=
+  [ [110,117,108,108], [116,114,117,101], [121], [121,101,115], [111,110],
+    [102,97,108,115,101], [110], [110,111], [111,102,102],
+    [46,110,97,110], [46,105,110,102], [43,46,105,110,102], [45,46,105,110,102] ]
+
+def isHexLetter (c : Nat) : Bool := (97 ≤ c && c ≤ 102) || (65 ≤ c && c ≤ 70)
+
+/-- `is_safe_yaml_plain` -/
+def isSafeYamlPlain (s : Str) : Bool :=
+  if s.isEmpty || s == [45] || s == [45, 45, 45] then false
+  else if s.any (fun c => !(isAlnum c || c == 47 || c == 95 || c == 45 || c == 46)) then false
+  else if yamlSpecial.any (fun sp => eqIgnoreAsciiCase s sp) then false
+  else if s.all (fun c => isDigit c || c == 45) && countC (· == 45) s == 2 then false
+  else if s.all (fun c => isDigit c || c == 95 || c == 45) && countC (· == 45) s ≤ 1 then false
+  else if (startsWith [48, 98] s || startsWith [45, 48, 98] s)
+      && s.all (fun c => isDigit c || c == 98 || c == 66 || c == 95 || c == 45)
+      && countC (· == 45) s ≤ 1 then false
+  else if (startsWith [48, 120] s || startsWith [45, 48, 120] s)
+      && s.all (fun c => isDigit c || isHexLetter c || c == 120 || c == 88 || c == 95 || c == 45)
+      && countC (· == 45) s ≤ 1 then false
+  else if s.all (fun c => isDigit c || c == 101 || c == 69 || c == 95 || c == 45 || c == 46)
+      && countC (· == 46) s == 1
+      && countC (· == 45) s ≤ 2
+      && countC (fun c => c == 101 || c == 69) s ≤ 1 then false
+  else true
+
+/-- `is_safe_toml_plain` (byte-wise in Rust; a non-ASCII code point has only
+    non-ASCII bytes, so code-point-wise is the same predicate) -/
+def isSafeTomlPlain (s : Str) : Bool :=
+  !s.isEmpty && s.all (fun c => isAlnum c || c == 95 || c == 45)
+
+/-- `escape_key_toml` -/
+def escapeKeyToml (s : Str) : Str := if isSafeTomlPlain s then s else escape s
+
+/-! ## `do_manifest_yaml_doc`, `std.manifestYamlStream` -/
+
+/-- `str::split('\n')` -/
+def splitNl : Str → Str → List Str
+  | cur, [] => [cur.reverse]
+  | cur, c :: r => if c = 10 then cur.reverse :: splitNl [] r else splitNl (c :: cur) r
+
+/-- `str::strip_suffix('\n')` -/
+def stripSuffixNl (s : Str) : Option Str :=
+  match s.reverse with
+  | 10 :: r => some r.reverse
+  | _ => none
+
+def yamlIndent : Str := [32, 32]
+
+def yamlKey (quoteKeys : Bool) (k : Str) : Str :=
+  if !quoteKeys && isSafeYamlPlain k then k else escape k
+
+def yamlString (s : Str) (depth : Nat) (nested : Bool) : Str :=
+  match stripSuffixNl s with
+  | some body =>
+    let sub := if nested then depth else depth + 1
+    124 :: ((splitNl [] body).map (fun line => 10 :: (rep sub yamlIndent ++ line))).flatten
+  | none => escape s
+
+mutual
+/-- `do_manifest_yaml_doc(indent_array_in_object, quote_keys, depth,
+    parent_is_array, parent_is_object)` -/
+def manifestYaml (iaio qk : Bool) (depth : Nat) (pArr pObj : Bool) : JVal → Str
+  | .null => (if pArr || pObj then [32] else []) ++ sNull
+  | .bool true => (if pArr || pObj then [32] else []) ++ sTrue
+  | .bool false => (if pArr || pObj then [32] else []) ++ sFalse
+  | .num t => (if pArr || pObj then [32] else []) ++ t
+  | .str s => (if pArr || pObj then [32] else []) ++ yamlString s depth (pArr || pObj)
+  | .arr [] => (if pArr || pObj then [32] else []) ++ [91, 93]
+  | .arr (x :: xs) =>
+    (if pArr || pObj then [10] else []) ++
+      yamlItems iaio qk (if pObj && !iaio then depth - 1 else depth) x xs
+  | .obj [] => (if pArr || pObj then [32] else []) ++ [123, 125]
+  | .obj ((k, x) :: xs) =>
+    (if pArr then [32] else if pObj then [10] else []) ++
+      ((if pArr then [] else rep depth yamlIndent) ++ yamlFields iaio qk depth k x xs)
+def yamlItems (iaio qk : Bool) (depth : Nat) : JVal → List JVal → Str
+  | x, [] => rep depth yamlIndent ++ (45 :: manifestYaml iaio qk (depth + 1) true false x)
+  | x, y :: ys =>
+    rep depth yamlIndent ++ (45 :: (manifestYaml iaio qk (depth + 1) true false x ++
+      (10 :: yamlItems iaio qk depth y ys)))
+/-- fields; the indent of the first field is emitted by the caller -/
+def yamlFields (iaio qk : Bool) (depth : Nat) : Str → JVal → List (Str × JVal) → Str
+  | k, x, [] => yamlKey qk k ++ (58 :: manifestYaml iaio qk (depth + 1) false true x)
+  | k, x, (k', y) :: ys =>
+    yamlKey qk k ++ (58 :: (manifestYaml iaio qk (depth + 1) false true x ++
+      (10 :: (rep depth yamlIndent ++ yamlFields iaio qk depth k' y ys))))
+end
+
+/-- `std.manifestYamlDoc(v, indent_array_in_object, quote_keys)` -/
+def manifestYamlDoc (iaio qk : Bool) (v : JVal) : Str := manifestYaml iaio qk 0 false false v
+
+def yamlStreamDocs (iaio qk : Bool) : List JVal → Str
+  | [] => []
+  | [x] => manifestYamlDoc iaio qk x
+  | x :: y :: r => manifestYamlDoc iaio qk x ++ ([10, 45, 45, 45, 10] ++ yamlStreamDocs iaio qk (y :: r))
+
+/-- `std.manifestYamlStream(arr, indent_array_in_object, c_document_end, quote_keys)` -/
+def manifestYamlStream (iaio cde qk : Bool) (docs : List JVal) : Str :=
+  [45, 45, 45, 10] ++ (yamlStreamDocs iaio qk docs ++ (if cde then [10, 46, 46, 46, 10] else [10]))
+
+/-! ## Driver -/
+
+/-- UTF-8 decoding of driver input (inputs are produced from valid strings;
+    anything malformed is a malformed request) -/
+def utf8Decode : Nat → List Nat → Option Str
+  | 0, _ => some []
+  | _, [] => some []
+  | fuel + 1, b :: r =>
+    if b < 0x80 then (utf8Decode fuel r).map (b :: ·)
+    else if 0xC0 ≤ b ∧ b < 0xE0 then
+      match r with
+      | b1 :: r => (utf8Decode fuel r).map (((b - 0xC0) * 64 + (b1 - 0x80)) :: ·)
+      | _ => none
+    else if 0xE0 ≤ b ∧ b < 0xF0 then
+      match r with
+      | b1 :: b2 :: r => (utf8Decode fuel r).map (((b - 0xE0) * 4096 + (b1 - 0x80) * 64 + (b2 - 0x80)) :: ·)
+      | _ => none
+    else if 0xF0 ≤ b ∧ b < 0xF8 then
+      match r with
+      | b1 :: b2 :: b3 :: r =>
+        (utf8Decode fuel r).map (((b - 0xF0) * 262144 + (b1 - 0x80) * 4096 + (b2 - 0x80) * 64 + (b3 - 0x80)) :: ·)
+      | _ => none
+    else none
+
+def decodeHexStr (h : String) : Option Str := do
+  let bs ← hexDecode h
+  utf8Decode (bs.length + 1) bs
+
+def encodeHexStr (s : Str) : String := hexEnc (s.flatMap utf8EncodeChar)
+
+/-- hex digits (as characters) up to a terminator character -/
+def takeUntil (t : Char) : List Char → List Char → Option (List Char × List Char)
+  | _, [] => none
+  | acc, c :: r => if c = t then some (acc.reverse, r) else takeUntil t (c :: acc) r
+
+def decodeHexChars (cs : List Char) : Option Str := do
+  let bs ← hexDecodeChars cs
+  utf8Decode (bs.length + 1) bs
+
+/-- Wire syntax of values (no spaces):
+    `z` | `t` | `f` | `n<16 hex bits>:<hex token>;` | `s<hex>;` |
+    `[` v* `]` | `{` (`v`|`h`) `<hex key>;` v ... `}`  (`h` = hidden field).
+    Objects are normalised with `visibleSorted` as they are read. -/
+def readVal : Nat → List Char → Option (JVal × List Char)
+  | 0, _ => none
+  | fuel + 1, cs =>
+    match cs with
+    | 'z' :: r => some (.null, r)
+    | 't' :: r => some (.bool true, r)
+    | 'f' :: r => some (.bool false, r)
+    | 'n' :: r => do
+      let (_, r) ← takeUntil ':' [] r
+      let (tok, r) ← takeUntil ';' [] r
+      pure (.num (← decodeHexChars tok), r)
+    | 's' :: r => do
+      let (h, r) ← takeUntil ';' [] r
+      pure (.str (← decodeHexChars h), r)
+    | '[' :: r => readItems fuel [] r
+    | '{' :: r => readFields fuel [] r
+    | _ => none
+where
+  readItems : Nat → List JVal → List Char → Option (JVal × List Char)
+    | 0, _, _ => none
+    | fuel + 1, acc, cs =>
+      match cs with
+      | ']' :: r => some (.arr acc.reverse, r)
+      | _ => do
+        let (v, r) ← readVal fuel cs
+        readItems fuel (v :: acc) r
+  readFields : Nat → List (Str × Bool × JVal) → List Char → Option (JVal × List Char)
+    | 0, _, _ => none
+    | fuel + 1, acc, cs =>
+      match cs with
+      | '}' :: r => some (.obj (visibleSorted acc.reverse), r)
+      | vis :: r => do
+        let (h, r) ← takeUntil ';' [] r
+        let k ← decodeHexChars h
+        let (v, r) ← readVal fuel r
+        if vis = 'v' then readFields fuel ((k, false, v) :: acc) r
+        else if vis = 'h' then readFields fuel ((k, true, v) :: acc) r
+        else none
+      | [] => none
+
+def decodeVal (s : String) : Option JVal :=
+  match readVal (s.length + 1) s.toList with
+  | some (v, []) => some v
+  | _ => none
+
+def hexOfStr (s : Str) : String := hexEncode (s.flatMap utf8EncodeChar)
+
+mutual
+def showVal : JVal → String
+  | .null => "z"
+  | .bool true => "t"
+  | .bool false => "f"
+  | .num t => "n:" ++ hexOfStr t ++ ";"
+  | .str s => "s" ++ hexOfStr s ++ ";"
+  | .arr xs => "[" ++ showItems xs ++ "]"
+  | .obj fs => "{" ++ showFields fs ++ "}"
+def showItems : List JVal → String
+  | [] => ""
+  | x :: xs => showVal x ++ showItems xs
+def showFields : List (Str × JVal) → String
+  | [] => ""
+  | (k, x) :: xs => "v" ++ hexOfStr k ++ ";" ++ showVal x ++ showFields xs
+end
+
+def showErr : Err → String
+  | .expectedValue => "expectedValue"
+  | .expectedEof => "expectedEof"
+  | .expected1 c => s!"expected1:{c}"
+  | .expected2 a b => s!"expected2:{a}:{b}"
+  | .invalidNumber => "invalidNumber"
+  | .numberOverflow => "numberOverflow"
+  | .unfinishedString => "unfinishedString"
+  | .invalidChrInString => "invalidChrInString"
+  | .invalidStringEscape => "invalidStringEscape"
+  | .expectedObjectKey => "expectedObjectKey"
+  | .repeatedFieldName k => "repeatedFieldName:" ++ hexEnc (k.flatMap utf8EncodeChar)
+  | .fuel => "fuel"
+
+def bit (c : Char) : Option Bool := if c = '1' then some true else if c = '0' then some false else none
+
+/-- output format selector of `json manifest` -/
+def manifestBy (fmt : String) (v : JVal) : Option Str :=
+  match fmt.splitOn ":" with
+  | ["D"] => some (manifest Fmt.defaultManifest 0 v)
+  | ["T"] => some (manifest Fmt.toStringFmt 0 v)
+  | ["S"] => some (toStringVal v)
+  | ["M"] => some (manifest Fmt.minified 0 v)
+  | ["J"] => some (manifest Fmt.stdManifestJson 0 v)
+  | ["X", i, n, k] => do
+    pure (manifest (Fmt.ex (← decodeHexStr i) (← decodeHexStr n) (← decodeHexStr k)) 0 v)
+  | ["P"] => some (manifestPython v)
+  | ["Y", flags] =>
+    match flags.toList with
+    | [a, b] => do pure (manifestYamlDoc (← bit a) (← bit b) v)
+    | _ => none
+  | ["YS", flags] =>
+    match flags.toList, v with
+    | [a, b, c], .arr docs => do pure (manifestYamlStream (← bit a) (← bit b) (← bit c) docs)
+    | _, _ => none
+  | _ => none
+
+/-- `json escape <hexstr>` | `json manifest <fmt> <value>` | `json parse <hextext>` |
+    `json yamlplain <hexstr>` | `json tomlplain <hexstr>` | `json tomlkey <hexstr>` -/
+def handle (args : List String) : Option String :=
+  match args with
+  | ["escape", h] => do pure (encodeHexStr (escape (← decodeHexStr h)))
+  | ["manifest", fmt, val] => do
+    let v ← decodeVal val
+    let out ← manifestBy fmt v
+    pure ("ok " ++ encodeHexStr out)
+  | ["parse", h] => do
+    let s ← decodeHexStr h
+    match parseJson s with
+    | .ok v => pure ("ok " ++ showVal v)
+    | .error e => pure ("err " ++ showErr e)
+  | ["yamlplain", h] => do pure (if isSafeYamlPlain (← decodeHexStr h) then "1" else "0")
+  | ["tomlplain", h] => do pure (if isSafeTomlPlain (← decodeHexStr h) then "1" else "0")
+  | ["tomlkey", h] => do pure (encodeHexStr (escapeKeyToml (← decodeHexStr h)))
+  | _ => none
 
 end Rsj.Json
